@@ -131,7 +131,8 @@ LevelOK(levels, fmt, dims, l) ==
 
 \* name of the first clause that fails, "" when well-formed
 LevelDefect(levels, fmt, dims, l) ==
-  IF fmt.modes[l] = "d" THEN ""
+  IF fmt.modes[l] = "d" THEN (IF levels[l] # <<>> THEN "level-shape" ELSE "")
+  ELSE IF Len(levels[l]) # 2 THEN "level-shape"
   ELSE LET pos == levels[l][1] crd == levels[l][2] IN
        IF Len(pos) # NPos(levels, fmt, dims, l - 1) + 1 THEN "pos-length"
        ELSE IF pos[1] # 0 THEN "pos-start"
